@@ -3,7 +3,7 @@
 use crate::engine::*;
 use crate::fcmp::EPS32;
 use crate::net::*;
-use crate::refmodel::{self as rm, ActK};
+use crate::refmodel::ActK;
 use crate::tape::{payload, Tape};
 use crate::tens;
 use crate::{ensure, fail};
@@ -40,14 +40,21 @@ fn decode(tape: &[u32], tier: Tier) -> Case {
         // a single layer of a chosen kind on a chosen input
         let which = t.pick(4);
         if which == 0 {
-            let input = vec![t.usize(1, 12)];
+            // one dense case in six is wide (60..300 inputs): blocked dot products must not drop a tail
+            let input = if t.chance(1, 6) { vec![t.usize(60, 300)] } else { vec![t.usize(1, 12)] };
             let act = [ActK::Linear, ActK::Tanh, ActK::Sigmoid, ActK::ReLU, ActK::Leaky, ActK::Softmax][t.pick(6)];
             NetSpec { input, layers: vec![LayerSpec::Dense { out: t.usize(1, 10), act, bias: t.bool(), dropout: None }] }
         } else {
             let input = vec![t.usize(1, o.max_c), t.usize(1, o.max_hw), t.usize(1, o.max_hw)];
             let (h, w) = (input[1], input[2]);
             let l = match which {
-                1 => LayerSpec::Conv { cfg: gen_conv(&mut t, h, w, &o), act: gen_act(&mut t, &o), dropout: None },
+                1 => {
+                    let mut cfg = gen_conv(&mut t, h, w, &o);
+                    if t.chance(1, 6) {
+                        cfg.filters = t.usize(12, 24); // many filters (parallel-per-filter paths)
+                    }
+                    LayerSpec::Conv { cfg, act: gen_act(&mut t, &o), dropout: None }
+                }
                 2 => LayerSpec::Deconv { cfg: gen_deconv(&mut t, h, w, &o), act: gen_act(&mut t, &o), dropout: None },
                 _ => {
                     let kh = t.usize(1, h.min(4));
@@ -313,7 +320,7 @@ impl Prop for C02 {
         t.pick(300_000, 20_000_000)
     }
     fn rule(&self) -> String {
-        "tape-decoded cases: (3/4) one layer of a chosen kind (dense incl. soft-max, convolution, deconvolution, max-pool) over the configuration lattice channels 1-3, height/width 1-8 (thorough 1-12) non-square, filters 1-3, kernel 1-3 (5), stride 1-3 (4), padding 0-2, dilation 1-2 (3), constructed so that the effective kernel fits; distinct random taps and inputs at scales 0.01/1/30 (dense also 300); each spatial layer is fed the c x h x w tensor and its flattening. (1/4) sequences of 2-5 fitting layers incl. feedback blocks without skips and flat<->spatial transitions; one in five of them is compared after a short early-stopped learn() run with dropout layers (trained weights read back through the hooks). Oracles: f64 defining operators with a forward-error bound 4(n+1)eps*sum|terms| (max-pool exact), bitwise equality of both input representations, bitwise equality of Network::forward/predict with the fold of the library's own single-layer forwards, final output vs f64 reference network (2e-4 relative to the output scale, skipped near kinks/ties). Non-trivial: spatial layer or sequence. Distinct = full specification.".into()
+        "tape-decoded cases: (3/4) one layer of a chosen kind (dense incl. soft-max, convolution, deconvolution, max-pool) over the configuration lattice channels 1-3, height/width 1-8 (thorough 1-12) non-square, filters 1-3 (1/6 of the convolutions: 12-24), dense inputs 1-12 (1/6: 60-300), kernel 1-3 (5), stride 1-3 (4), padding 0-2, dilation 1-2 (3), constructed so that the effective kernel fits; distinct random taps and inputs at scales 0.01/1/30 (dense also 300); each spatial layer is fed the c x h x w tensor and its flattening. (1/4) sequences of 2-5 fitting layers incl. feedback blocks without skips and flat<->spatial transitions; one in five of them is compared after a short early-stopped learn() run with dropout layers (trained weights read back through the hooks). Oracles: f64 defining operators with a forward-error bound 4(n+1)eps*sum|terms| (max-pool exact), bitwise equality of both input representations, bitwise equality of Network::forward/predict with the fold of the library's own single-layer forwards, final output vs f64 reference network (2e-4 relative to the output scale, skipped near kinks/ties). Non-trivial: spatial layer or sequence. Distinct = full specification.".into()
     }
     fn run_case(&self, tape: &[u32], ev: &mut CaseEv) -> CheckResult {
         let c = decode(tape, self.0);
